@@ -109,6 +109,13 @@ func registeredContent(spec, comment string) []byte {
 		return ssh.MarshalAuthorizedKey(c)
 	case spec == "dsa":
 		return []byte(dsaLine + "\n")
+	case strings.HasPrefix(spec, "multi:"):
+		// several registered lines (a key being rotated, a stray line in front)
+		var out []byte
+		for i, part := range strings.Split(strings.TrimPrefix(spec, "multi:"), "+") {
+			out = append(out, registeredContent(part, fmt.Sprintf("%s-line%d", comment, i))...)
+		}
+		return out
 	case strings.HasPrefix(spec, "opts:"):
 		// authorized_keys options in front of the key, and a comment line before it
 		return append([]byte("# registered key\nrestrict,from=\"10.0.0.0/8\",command=\"/bin/true\" "), vh.AuthorizedLine(strings.TrimPrefix(spec, "opts:"), comment)...)
@@ -131,6 +138,10 @@ func gen(t *rapid.T) Case {
 			c.Dir[f] = rapid.SampledFrom(userKeys).Draw(t, "key:"+f)
 			if rapid.IntRange(0, 7).Draw(t, "opts:"+f) == 3 {
 				c.Dir[f] = "opts:" + c.Dir[f]
+			}
+			if rapid.IntRange(0, 9).Draw(t, "multi:"+f) == 4 {
+				lines := rapid.SliceOfN(rapid.SampledFrom(append([]string{"unparsable", "dsa", "sk-ed25519"}, userKeys...)), 2, 4).Draw(t, "lines:"+f)
+				c.Dir[f] = "multi:" + strings.Join(lines, "+")
 			}
 		}
 	}
@@ -404,16 +415,41 @@ func exec(c Case) (vh.Outcome, error) {
 		}
 		regKey, hasReg := cur[regFile]
 		var K ssh.PublicKey
+		// Ks: every key line of the registered file (independent parse). The code under test uses the first
+		// one; a file with several lines registers at most those keys, so a proof under any of them is a proof
+		// under a registered key and a challenge under any other key is not.
+		var Ks []ssh.PublicKey
 		if hasReg && regKey != "unparsable" {
-			// the registered key is whatever the first key line of the file says (independent parse)
-			K, _, _, _, _ = ssh.ParseAuthorizedKey(contents[regFile])
+			rest := contents[regFile]
+			for len(rest) > 0 {
+				k, _, _, r2, e := ssh.ParseAuthorizedKey(rest)
+				if e != nil {
+					break
+				}
+				Ks = append(Ks, k)
+				rest = r2
+			}
+			if len(Ks) > 0 {
+				K = Ks[0]
+			}
+			if len(Ks) > 1 {
+				out.Classes = append(out.Classes, "several-registered-lines")
+			}
+		}
+		isReg := func(blob []byte) ssh.PublicKey {
+			for _, k := range Ks {
+				if bytes.Equal(blob, k.Marshal()) {
+					return k
+				}
+			}
+			return nil
 		}
 		realAuth := false
 		if r.Policy == "NONS" && !r.HardKey && K != nil {
 			for _, s := range signs {
-				if bytes.Equal(s.keyBlob, K.Marshal()) && s.sig != nil {
+				if k := isReg(s.keyBlob); k != nil && s.sig != nil {
 					var sig ssh.Signature
-					if ssh.Unmarshal(s.sig, &sig) == nil && K.Verify(s.data, &sig) == nil {
+					if ssh.Unmarshal(s.sig, &sig) == nil && k.Verify(s.data, &sig) == nil {
 						realAuth = true
 					}
 				}
@@ -472,7 +508,7 @@ func exec(c Case) (vh.Outcome, error) {
 			if len(s.data) != 64 {
 				return out, vh.Errf("%s: challenge of %d bytes", where, len(s.data))
 			}
-			if K == nil || !bytes.Equal(s.keyBlob, K.Marshal()) {
+			if K == nil || isReg(s.keyBlob) == nil {
 				return out, vh.Errf("%s: the agent was challenged under a key that is not the one registered for %q (file %q)", where, r.LogName, regFile)
 			}
 			for _, old := range allChallenges {
@@ -603,7 +639,7 @@ func orDefault(name string) string {
 	return name
 }
 
-const rule = "histories of 1..4 runs of gensign.Run sharing one registered-key directory (a third of the later runs first replace, break or delete a '<name>.pub' / '<name>' file) and one scripted forwarded agent; in half of the histories every run uses the same regular.Handler object and forwarded connection, otherwise each run builds its own. Per run: login name (incl. names of other users and 'alice.pub'), namespace policy NONS / NSOK and spellings that are neither (other letter case, a trailing blank, empty, a prefix, both joined), hardware-key flag, client-declared user / host different from the login name (short, or 55..3000 bytes long), parameters built directly or through NewReqParam, agent behaviour {honest, lacks the key, signs with another key, signs other data, replays a signature captured earlier in the history, garbage, empty signature, failure, closes the connection}, handler list of 1..4 entries (in a quarter of the runs all harness handlers report one and the same name - the real handler's or another -, as instances of one handler type do) with at most one real regular handler among accepting harness handlers and harness handlers rejecting with every kind of error (authentication, disabled, invalid parameters, unknown, panic-typed, untyped) or panicking inside Authenticate, and accepting harness handlers whose Generate then fails (generation, configuration or untyped error); a tenth of the directly built parameter sets carry no client attributes at all. Directory: '<n>.pub' and bare '<n>' files holding any user's key (RSA, ECDSA, Ed25519, and the types nobody can answer for through the forwarded agent: security-key types (the honest agent does answer for the sk-ed25519 one, as a token would), a certificate line, DSA), both with different keys, unparsable, absent. Oracle: the harness sees every sign request and reply and decides itself (K.Verify over this run's challenge under the registered key) whether the real handler may authenticate; CA call or add-identity => the selected handler is the first in list order that authenticates, earlier ones asked once, later ones never; none => AllAuthFailed, no Generate, no CA call, no add; a handler that crashes while authenticating never counts as authenticated (error returned, no CA call, no add, no later handler used); the first handler that authenticates cannot generate => error, no CA call, no add, no later handler used; a handler authenticates (and generates) => the run succeeds with exactly one request from that handler; challenges are 64 bytes, only under the registered key, pairwise distinct over the history. Non-trivial: an adversarial agent while the key file exists, or a reject before an accept in a list of >= 2."
+const rule = "histories of 1..4 runs of gensign.Run sharing one registered-key directory (a third of the later runs first replace, break or delete a '<name>.pub' / '<name>' file) and one scripted forwarded agent; in half of the histories every run uses the same regular.Handler object and forwarded connection, otherwise each run builds its own. Per run: login name (incl. names of other users and 'alice.pub'), namespace policy NONS / NSOK and spellings that are neither (other letter case, a trailing blank, empty, a prefix, both joined), hardware-key flag, client-declared user / host different from the login name (short, or 55..3000 bytes long), parameters built directly or through NewReqParam, agent behaviour {honest, lacks the key, signs with another key, signs other data, replays a signature captured earlier in the history, garbage, empty signature, failure, closes the connection}, handler list of 1..4 entries (in a quarter of the runs all harness handlers report one and the same name - the real handler's or another -, as instances of one handler type do) with at most one real regular handler among accepting harness handlers and harness handlers rejecting with every kind of error (authentication, disabled, invalid parameters, unknown, panic-typed, untyped) or panicking inside Authenticate, and accepting harness handlers whose Generate then fails (generation, configuration or untyped error); a tenth of the directly built parameter sets carry no client attributes at all. Directory: '<n>.pub' and bare '<n>' files holding any user's key (RSA, ECDSA, Ed25519, and the types nobody can answer for through the forwarded agent: security-key types (the honest agent does answer for the sk-ed25519 one, as a token would), a certificate line, DSA), both with different keys, unparsable, absent; a tenth of the key files hold 2..4 lines (keys of any of these kinds, unparsable lines), where a proof under any line's key counts as a proof under a registered key. Oracle: the harness sees every sign request and reply and decides itself (K.Verify over this run's challenge under the registered key) whether the real handler may authenticate; CA call or add-identity => the selected handler is the first in list order that authenticates, earlier ones asked once, later ones never; none => AllAuthFailed, no Generate, no CA call, no add; a handler that crashes while authenticating never counts as authenticated (error returned, no CA call, no add, no later handler used); the first handler that authenticates cannot generate => error, no CA call, no add, no later handler used; a handler authenticates (and generates) => the run succeeds with exactly one request from that handler; challenges are 64 bytes, only under the registered key, pairwise distinct over the history. Non-trivial: an adversarial agent while the key file exists, or a reject before an accept in a list of >= 2."
 
 // TestC01Slow: a forwarded agent that takes seconds to answer the challenge (and then proves
 // possession, refuses, or answers with another key), under a run deadline that is longer than that.
